@@ -23,7 +23,7 @@ PROPS = {
     "C15": {
         "case_sets": ["lex"],
         "ops": ["SPLIT"],
-        "lean_targets": ["PqlModel.Props.C15"],
+        "lean_targets": ["PqlModel.Props.C15", "PqlModel.Props.C15Parse"],
         "facts": ["keywords"],
         "rule": "SPLIT: same sources as C09 (exhaustive short strings over the scanner alphabet, which contains ';', all "
                 "three quote characters, backslash, newline and the comment opener, plus random fragment concatenations); "
